@@ -5,6 +5,7 @@
    conversions with the optimiser `nm` and the crystal's index `n_along` as parameters, the unit conversions.
    Model/Beam.v adds the op type, `step`/`run` (dispatch to the generated setters) and the normal forms norm_u / norm_s. *)
 From Coq Require Import Reals List.
+From Interval Require Tactic.
 From SpdVerif Require Import Base.Rx Model.Optics Model.Fresnel Gen.Fresnel Gen.Beam Model.Beam
   Proofs.C02_frame Proofs.C02_gen Proofs.C13_norm Proofs.C13_beam Proofs.C13_snell.
 Local Open Scope R_scope.
@@ -209,6 +210,68 @@ Theorem C13_snell_roundtrip_model_partial : forall sd fuel n_along s e r M,
   Rabs (theta_external_gen n_along s' - e) <= r / cos M.
 Proof. exact snell_roundtrip_model. Qed.
 
+(* ---- who calls optimal_waist_position: SPDC::assign_optimal_waist_positions (+ with_optimal_waist_positions), SPDC::try_as_optimum,
+   SPDCConfig::try_as_spdc (`auto`).  Gen/C13Callers.v (tools/gen/c13_callers.py) lists every call with its arguments read
+   symbolically; each caller sets both positions, the signal's from the signal's wavelength AND polarization, the idler's from the
+   idler's.  The generator fails closed on a call site it does not know. *)
+From SpdVerif Require Import Gen.C13Callers Proofs.C13_callers.
+
+Theorem C13_waist_position_callers : forall ls li ps pi,
+  List.Forall (waist_call_ok ls li ps pi) (waist_position_calls_gen ls li ps pi) /\
+  sets_both "assign_optimal_waist_positions"%string (waist_position_calls_gen ls li ps pi) /\
+  sets_both "try_as_optimum"%string (waist_position_calls_gen ls li ps pi) /\
+  sets_both "try_as_spdc"%string (waist_position_calls_gen ls li ps pi).
+Proof. exact waist_position_callers. Qed.
+
+(* sharpened (review): under the round-trip hypotheses the asin-domain guard of the forward relation is implied by the residual
+   bound (no condition on theta_i: covers the whole 0..80 deg range), and |theta_i| <= |theta_e| holds for the ANGLES up to r / cos M *)
+Theorem C13_snell_forward_after_set_partial : forall nm n_along s e r M,
+  beam_inv s -> 0 <= e <= M -> M < PI / 2 ->
+  0 <= theta_star nm n_along s e <= PI / 2 ->
+  snell_cost_gen n_along s e (theta_star nm n_along s e) <= r -> sin e + r <= sin M ->
+  let s' := set_theta_external_gen (snell_inv_of nm n_along) s e in
+  sin (theta_external_gen n_along s') = n_along (normalize (polar_dir (b_phi s) (theta_star nm n_along s e))) * sin (b_theta s').
+Proof. exact forward_relation_after_set. Qed.
+
+Theorem C13_internal_angle_not_larger_partial : forall nm n_along s e r M,
+  beam_inv s -> 0 <= e <= M -> M < PI / 2 ->
+  0 <= theta_star nm n_along s e <= PI / 2 ->
+  snell_cost_gen n_along s e (theta_star nm n_along s e) <= r -> sin e + r <= sin M ->
+  1 <= n_along (normalize (polar_dir (b_phi s) (theta_star nm n_along s e))) ->
+  b_theta (set_theta_external_gen (snell_inv_of nm n_along) s e) <= e + r / cos M.
+Proof. exact internal_angle_not_larger. Qed.
+
+Theorem C13_internal_angle_not_larger_builtin : forall nm c l T theta phi p s e r M,
+  in_window c l -> temp_ok T ->
+  beam_inv s -> 0 <= e <= M -> M < PI / 2 ->
+  0 <= theta_star nm (builtin_index c l T theta phi p) s e <= PI / 2 ->
+  snell_cost_gen (builtin_index c l T theta phi p) s e (theta_star nm (builtin_index c l T theta phi p) s e) <= r ->
+  sin e + r <= sin M ->
+  b_theta (set_theta_external_gen (snell_inv_of nm (builtin_index c l T theta phi p)) s e) <= e + r / cos M.
+Proof. exact internal_angle_not_larger_builtin. Qed.
+
+(* a witness for ALL hypotheses of the conditional Snell theorems at once (theta_e = 0.5 rad, constant index sin 0.5 / sin 0.3 ~ 1.62,
+   an optimiser that answers 0.3 rad: residual 0) *)
+Example C13_nonvacuous_snell_witness :
+  let nm := fun (_ : R -> R) (_ _ _ _ _ _ : R) => 0.3 in
+  let n_along := fun _ : vec => sin 0.5 / sin 0.3 in
+  let s := beam_new_gen Ordinary 0 0 1.55e-6 1e-4 in
+  beam_inv s /\ 0 <= 0.5 <= 1 /\ 1 < PI / 2 /\ 0 <= theta_star nm n_along s 0.5 <= PI / 2 /\
+  snell_cost_gen n_along s 0.5 (theta_star nm n_along s 0.5) <= 3e-8 /\ sin 0.5 + 3e-8 <= sin 1 /\
+  1 <= n_along (normalize (polar_dir (b_phi s) (theta_star nm n_along s 0.5))).
+Proof.
+  cbv zeta. unfold theta_star, snell_cost_gen. rewrite !div1.
+  assert (Hs3 : 0 < sin 0.3) by Interval.Tactic.interval.
+  repeat split; try apply new_inv; try Lra.lra; try Interval.Tactic.interval.
+  - pose proof PI2_1. Lra.lra.
+  - pose proof PI2_1. Lra.lra.
+  - replace (sin 0.5 - sin 0.5 / sin 0.3 * sin 0.3) with 0 by (field; Lra.lra). rewrite Rabs_R0. Lra.lra.
+  - apply Rmult_le_reg_r with (sin 0.3); [exact Hs3 |]. unfold Rdiv. rewrite Rmult_assoc, Rinv_l, Rmult_1_r, Rmult_1_l by Lra.lra.
+    apply Rminus_le. Interval.Tactic.interval.
+Qed.
+Example C13_nonvacuous_units_witness : (1.55e-6 : R) <> 0 /\ (1.2153e15 : R) <> 0.
+Proof. split; Lra.lra. Qed.
+
 Example C13_builtin_nonvacuous : in_window KTP 1.55 /\ temp_ok 20 /\ Rabs (sin 0) <= / 4.
 Proof. rewrite sin_0, Rabs_R0. unfold in_window, temp_ok; cbn. repeat split; Lra.lra. Qed.
 
@@ -235,3 +298,7 @@ Print Assumptions C13_snell_root_exists.
 Print Assumptions C13_snell_root_exists_builtin.
 Print Assumptions C13_snell_nm_builtin.
 Print Assumptions C13_snell_roundtrip_model_partial.
+Print Assumptions C13_waist_position_callers.
+Print Assumptions C13_snell_forward_after_set_partial.
+Print Assumptions C13_internal_angle_not_larger_partial.
+Print Assumptions C13_internal_angle_not_larger_builtin.
